@@ -143,6 +143,25 @@ def check_scale(case) -> Outcome:
         a1, a2 = np.asarray(mm, dtype=float).ravel(), np.asarray(mm2, dtype=float).ravel()
         if a1.shape != exp.shape or a2.shape != exp2.shape or not np.allclose(a1, exp, rtol=1e-9, atol=tol * (spread / sval)) or not np.allclose(a2, exp2, rtol=1e-9, atol=1e-9 * scale_f):
             out.fail("formula-follow-up", f"{src} trained on {case['x']}, applied to {case['follow']}", **feat)
+        # two differently named quoted columns whose sanitised aliases coincide (`a b`, `a-b`), each inside the same
+        # transform: each keeps its own recorded statistics
+        def ref_tf(v, vf):
+            m_, _ = two_pass(list(v), ddof)
+            c_ = m_ if cen is True else (0.0 if cen is False else float(cen))
+            vc = v - c_
+            s_ = math.sqrt(math.fsum(q * q for q in vc) / (n - ddof)) if scl is True else (1.0 if scl is False else float(scl))
+            return vc / s_, (vf - c_) / s_
+
+        if abs(m) <= 1e6 * spread:
+            other, other_f = x[::-1] * 3.0 + 7.0, fol[::-1] * 3.0 + 7.0
+            qa, qb = src.replace("(x", "(`a b`", 1), src.replace("(x", "(`a-b`", 1)
+            mmq = model_matrix(f"{qa} + {qb} - 1", pd.DataFrame({"a b": x, "a-b": other}))
+            q1 = np.asarray(mmq, dtype=float)
+            q2 = np.asarray(mmq.model_spec.get_model_matrix(pd.DataFrame({"a b": fol, "a-b": other_f})), dtype=float)
+            (ea, eaf), (eb, ebf) = ref_tf(x, fol), ref_tf(other, other_f)
+            tq = 1e-8 * (max(np.abs(ebf).max(), np.abs(eaf).max(), 1.0) + 1e-6 * (abs(m) * 3 + 7) / max(sval, 1e-300))
+            if q1.shape != (n, 2) or q2.shape != (len(fol), 2) or not np.allclose(q1, np.column_stack([ea, eb]), rtol=1e-8, atol=tq) or not np.allclose(q2, np.column_stack([eaf, ebf]), rtol=1e-8, atol=tq):
+                out.fail("colliding-quoted-names", f"'{qa} + {qb}' trained on {case['x']} (second column = reversed * 3 + 7), applied to {case['follow']}: columns do not each use their own statistics", **feat)
         # the transform only inside an interaction of a subset of the fitted spec: the subset still applies the
         # recorded statistics
         w1, w2 = 1.0 + (np.arange(n) % 3), 1.0 + (np.arange(len(fol)) % 2)
